@@ -180,3 +180,32 @@ def c_apply_keyword_names(which: int, a: int, b: int, first: int) -> bool:
     for i in ([0, 1] if first == 0 else [1, 0]):
         _finish([fa, fb][i], 0, [a, b][i], None)
     return out.done() and out.exception() is None and out.result() == ("r", (a,), [(name, b)]) and len(seen) == 1
+
+
+def c_apply_mixed_done_pending(mask: int, a0: int, a1: int, a2: int, k0: int, rev: bool) -> bool:
+    """
+    pre: 0 <= mask <= 31
+    post: __return__
+    """
+    # any MIX of inputs: those selected by mask are already finished when f_apply is called, the
+    # others finish afterwards (forward or reverse); positions and names must not depend on that
+    seen = []
+
+    def fn(*args, **kwargs):
+        seen.append(1)
+        return ("r", args, sorted(kwargs.items()))
+
+    fs = [RF() for _ in range(5)]
+    vals = [fn, a0, a1, a2, k0]
+    for i in range(5):
+        if mask & (1 << i):
+            _finish(fs[i], 0, vals[i], None)
+    out = f_apply(fs[0], fs[1], fs[2], fs[3], z=fs[4])
+    rest = [i for i in range(5) if not mask & (1 << i)]
+    if rev:
+        rest.reverse()
+    for i in rest:
+        if seen:
+            return False
+        _finish(fs[i], 0, vals[i], None)
+    return out.done() and out.exception() is None and out.result() == ("r", (a0, a1, a2), [("z", k0)]) and len(seen) == 1
